@@ -947,6 +947,32 @@ end subroutine solve
 '''  # fmt: skip
 
 
+def _wrap_code(code: str, *, width: int) -> List[str]:
+    """Return `code` as a list of lines to join as Fortran continuation lines.
+
+    Lines are only ever broken between tokens: at blanks and, for a run of
+    more than `width` characters without a blank, after a parenthesis or
+    comma. (`textwrap.wrap()` alone breaks such a run at exactly `width`
+    characters, possibly inside a name or an operator such as `**`: joined
+    with '  &\\n&  ' that is no longer valid Fortran.)
+    """
+    lines = []
+
+    for line in textwrap.wrap(
+        code, width=width, break_long_words=False, break_on_hyphens=False
+    ):
+        while len(line) > width:
+            cut = max(line.rfind(x, 0, width) for x in '(),') + 1
+            if cut < 1:
+                break
+            lines.append(line[:cut])
+            line = line[cut:]
+
+        lines.append(line)
+
+    return lines
+
+
 def build_fortran_definition(
     symbols: List[Symbol],
     *,
@@ -1026,7 +1052,7 @@ def build_fortran_definition(
             code = code[:start] + variable + code[end:]
 
         block = f'! {equation}\n' + '  &\n&  '.join(
-            textwrap.wrap(code, width=wrap_width)
+            _wrap_code(code, width=wrap_width)
         )
         equation_code.append(textwrap.indent(block, '  '))
 
@@ -1054,7 +1080,7 @@ def build_fortran_definition(
             definition += f" = (/ {', '.join(map(str, indexes))} /)"
 
         # Line wrap as needed
-        blocks = textwrap.wrap(definition, width=wrap_width)
+        blocks = _wrap_code(definition, width=wrap_width)
         definition = textwrap.indent('  &\n&  '.join(blocks), '  ')
 
         return definition
